@@ -170,6 +170,63 @@ class Unknown(Exception):
     pass
 
 
+def _has_yield(fnode) -> bool:
+    stack = list(getattr(fnode, "body", []))
+    while stack:
+        n = stack.pop()
+        if isinstance(n, (ast.Yield, ast.YieldFrom)):
+            return True
+        if isinstance(n, (ast.FunctionDef, ast.AsyncFunctionDef, ast.Lambda, ast.ClassDef)):
+            continue
+        stack.extend(ast.iter_child_nodes(n))
+    return False
+
+
+def _interpreted_generator(sub: "MiniEval", fnode):
+    """a lazy Python generator driven by the interpreted generator function: the body runs in a helper thread that hands
+    control back at every `yield` (only one of the two threads runs at any time)"""
+    import threading
+
+    to_consumer: list = []
+    resume = threading.Semaphore(0)
+    ready = threading.Semaphore(0)
+    state = {"done": False, "error": None}
+
+    def hook(value):
+        to_consumer.append(value)
+        ready.release()
+        resume.acquire()
+        return None
+
+    def runner():
+        resume.acquire()
+        try:
+            sub.yield_hook = hook
+            sub.run(fnode.body)
+        except _Return:
+            pass
+        except BaseException as ex:  # propagate analysis errors / Raised to the consumer
+            state["error"] = ex
+        state["done"] = True
+        ready.release()
+
+    t = threading.Thread(target=runner, daemon=True)
+    t.start()
+
+    def gen():
+        while True:
+            resume.release()
+            ready.acquire()
+            if to_consumer:
+                yield to_consumer.pop(0)
+                continue
+            if state["error"] is not None:
+                raise state["error"]
+            return
+
+    return gen()
+
+
 class Closure:
     def __init__(self, node, env, me):
         self.node, self.env, self.me = node, env, me
@@ -202,6 +259,7 @@ class MiniEval:
         self.permissive = permissive
         self.resolver = resolver
         self.depth = 0
+        self.yield_hook = None
         self.expr_compare = False  # comparisons involving recorded expression terms build a term (Expr.__eq__ & co)
         self.ctor_fields: Optional[Callable[[str], Any]] = None  # class name -> (init params, {attr: param})
         self.isinstance_hook: Optional[Callable[[Any, str], Optional[bool]]] = None
@@ -387,6 +445,10 @@ class MiniEval:
             return v
         if isinstance(e, ast.Starred):
             return self.ev(e.value)
+        if isinstance(e, ast.Yield):
+            if self.yield_hook is None:
+                raise AnalysisError(f"{self.where}: yield outside an interpreted generator")
+            return self.yield_hook(self.ev(e.value) if e.value is not None else None)
         raise AnalysisError(f"{self.where}: expression form not supported by the evaluator: `{u(e)}`")
 
     def _cmp(self, op, left, right, e) -> bool:
@@ -661,6 +723,8 @@ class MiniEval:
         elif kwargs:
             raise AnalysisError(f"{self.where}: unexpected keyword arguments {sorted(kwargs)} calling {getattr(fnode, 'name', '?')}")
         self.steps += 1
+        if _has_yield(fnode):
+            return _interpreted_generator(sub, fnode)
         try:
             sub.run(fnode.body)
         except _Return as r:
@@ -736,7 +800,10 @@ class MiniEval:
         elif isinstance(st, ast.If):
             self.run(st.body if self.truth(self.ev(st.test)) else st.orelse)
         elif isinstance(st, ast.For):
-            for item in list(self.ev(st.iter)):
+            it = self.ev(st.iter)
+            if isinstance(it, (Rec, Sym)):
+                raise AnalysisError(f"{self.where}: iteration over an abstract value in `for {u(st.target)} in {u(st.iter)}`")
+            for item in it:  # the object itself is iterated (lazily for generators, index-based for lists), as Python does
                 self._bind(st.target, item)
                 try:
                     self.run(st.body)
